@@ -64,6 +64,39 @@ FREE_FNS = ('_ZdlPv', '_ZdaPv', '_ZdlPvm', '_ZdaPvm', '_ZdlPvSt11align_val_t', '
 NEW_FNS = ('_Znwm', '_Znam', '_ZnwmSt11align_val_t')
 
 
+def ext_vtr(interp, st, i, args):
+    """memory effect of a probe special member (same summary as checks/c14.py ext_vtr, repeated here so that the
+    lifetime modules do not import the modules that call them): it touches exactly the sizeof(VTr) bytes of its
+    object arguments"""
+    name = i.callee
+    this = args[0]
+    if 'C1' in name or 'C2' in name:
+        interp.check_access(st, this, ESZ, i, 'construct-element')
+        interp.mem_range_write(st, this, Lin(ESZ), i)
+        if len(args) > 1 and isinstance(args[1], PtrVal):
+            interp.check_access(st, args[1], ESZ, i, 'read-element')
+        return [(st, None)]
+    if 'D1' in name or 'D2' in name:
+        interp.check_access(st, this, ESZ, i, 'destroy-element')
+        return [(st, None)]
+    interp.check_access(st, this, ESZ, i, 'assign-element')
+    interp.mem_range_write(st, this, Lin(ESZ), i)
+    if len(args) > 1 and isinstance(args[1], PtrVal):
+        interp.check_access(st, args[1], ESZ, i, 'read-element')
+    return [(st, this)]
+
+
+def _ext_throw(interp, st, i, args):
+    st.bottom = True
+    return []
+
+
+# exception plumbing of igris::vector::at (the throwing path ends the trace)
+CXX_EXT = {'__cxa_allocate_exception': lambda interp, st, i, args: [(st, interp.unknown_ptr(st, 'exc', True))],
+           '__cxa_throw': _ext_throw, '__cxa_free_exception': lambda interp, st, i, args: [(st, None)],
+           '_ZNSt12out_of_rangeC1EPKc': lambda interp, st, i, args: [(st, None)]}
+
+
 def check_probe(mod):
     """anchor: every member of the probe type that the unit calls is a known event"""
     seen = 0
@@ -131,7 +164,7 @@ class Tracker:
         self.layout = layout        # dict(kind='inline'|'heap', n=..., data_off=..., size_off=..., data_ptr_off=...)
         self.part = part
         self.fn = fn
-        self.ext_vtr = ext_vtr
+        self.ext_vtr = ext_vtr or globals()['ext_vtr']
         self.ret = []               # (clause, ok, detail)
         self.events = 0
         self.returns = 0
@@ -382,6 +415,9 @@ class Tracker:
             ent = d.get(pv.obj)
             if ent is None or ent[2] != 'block' or not pv.off.is_const() or pv.off.c != ent[0]:
                 raise Unresolved('m_data of *%s does not point to the start of a tracked block at a return' % name)
+            self.out('return:block-in-m_data-has-one-owner', pv.obj not in owned,
+                     None if pv.obj not in owned else '%s: m_data points to the block that another vector of this call also '
+                     'owns: its elements would be destroyed twice' % what)
             owned.add(pv.obj)
             self.out('return:block-in-m_data-is-not-deallocated', not ent[3],
                      None if not ent[3] else '%s: m_data still points to a block that was deallocated' % what)
@@ -577,7 +613,11 @@ def run_partition(mod, fn, layout, member, part, ext_vtr, peel):
                 unresolved = 'a loop that changes slot states is not decided by the partition (%s)' % ob.detail
             if ob.kind.startswith('life:'):
                 findings.append((ob.kind[5:] + ':' + str(ob.objdesc), ob.ok, ob.detail))
+            if ob.kind == 'deref-null' and not ob.ok:
+                unresolved = 'a path dereferences a null pointer and is dropped by the interpreter (%s)' % ob.detail
         findings.extend(tr.ret)
+        if tr.returns == 0 and unresolved is None:
+            unresolved = 'no path of this partition reaches a return'
         bad_calls = [c for c in it.unknown_calls if c not in layout.get('harmless_calls', ())]
         if bad_calls:
             unresolved = 'call(s) to unsummarised external function(s) %s' % sorted(bad_calls)
@@ -610,7 +650,7 @@ def nice_name(fn, cls):
     return d[k:]
 
 
-def run_members(rep, rule, repo, mod, members, layout, ext_vtr, peel, label, cls):
+def run_members(rep, rule, repo, mod, members, layout, ext_vtr, peel, label, cls, rename=None, part_prefix=''):
     """members: list of (Function, Member).  Adds instances
          <rule>:event / :return / :block / :result   key = clause, function = member; merged over partitions
          <rule>:analysed                             one per member whose partitions were all analysed
@@ -631,9 +671,11 @@ def run_members(rep, rule, repo, mod, members, layout, ext_vtr, peel, label, cls
     table = {}
     for fi, (fn, mb) in enumerate(members):
         fname = nice_name(fn, cls)
+        if rename:
+            fname = rename(fname)
         where = '%s:%d' % (relpath(repo, fn.file), fn.line)
         rs = sorted(per.get(fi, []), key=lambda x: x[0])
-        unres = [(mb.parts[pi].label, r['unresolved']) for (pi, r) in rs if r['unresolved'] is not None]
+        unres = [(part_prefix + mb.parts[pi].label, r['unresolved']) for (pi, r) in rs if r['unresolved'] is not None]
         nret = sum(r['returns'] for (_pi, r) in rs)
         nev = sum(r['events'] for (_pi, r) in rs)
         stats['partitions'] += len(rs)
@@ -643,7 +685,7 @@ def run_members(rep, rule, repo, mod, members, layout, ext_vtr, peel, label, cls
         if mb.note:
             table[fname]['note'] = mb.note
         for (pi, r) in rs:
-            plabel = mb.parts[pi].label
+            plabel = part_prefix + mb.parts[pi].label
             for (clause, ok, detail) in r['findings']:
                 kind = clause.split(':', 1)[0]
                 sub = {'construct': 'event', 'destroy': 'event', 'assign': 'event', 'read': 'event', 'event': 'event',
@@ -657,11 +699,10 @@ def run_members(rep, rule, repo, mod, members, layout, ext_vtr, peel, label, cls
         if unres:
             for (pl, why) in unres:
                 stats['unresolved'].append('%s {%s}: %s' % (fname, pl, why))
-        elif nret == 0 and not mb.dtor and not getattr(mb, 'may_not_return', False):
-            stats['unresolved'].append('%s: no partition reaches a return' % fname)
         else:
             stats['members'] += 1
-            rep.inst('%s:analysed' % rule, fname, 'every-partition-analysed', True, where,
+            rep.inst('%s:analysed' % rule, fname, 'every-partition-analysed' + (':' + part_prefix.rstrip(',') if part_prefix else ''),
+                     True, where,
                      fact={'partitions': len(rs), 'returns': nret, 'slot_events': nev, 'unit': label})
     ex = rep.extra.setdefault('life', {})
     ex[label] = {'members': table, 'partitions': stats['partitions'], 'slot_events': stats['events'],
